@@ -50,6 +50,7 @@ class DclLockStep:
         self.matched = 0
         self.mismatch = None
         self.acts = []
+        self.unjudged = False
         for e in "AB":
             self._install_gate(e)
             env.ep[e].on("datachannel", self._mk_on_dc(e))
@@ -153,6 +154,15 @@ class DclLockStep:
                             return pkt
         return None
 
+    def _tok(self, n):
+        """Env's token of model object n (Env pairs announced channels with their creator itself)."""
+        tok = self.info[n]["tok"]
+        if tok is None:
+            tok = self.env.obj_token.get(id(self.real[n]), (None, None))[0]
+        if tok is None:
+            self.unjudged = True      # raw call below: the event recorder does not see it
+        return tok
+
     # ------------------------------------------------------------------ actions
     def apply(self, act):
         env = self.env
@@ -177,7 +187,7 @@ class DclLockStep:
             ch = self.real.get(act["o"])
             if ch is None:
                 return False
-            tok = self.info[act["o"]]["tok"]
+            tok = self._tok(act["o"])
             if tok is not None:
                 return env.send(e, tok, 10, "bytes") is not None
             env.begin_step()             # a channel announced by the peer (not used by the model so far)
@@ -194,7 +204,7 @@ class DclLockStep:
             ch = self.real.get(act["o"])
             if ch is None:
                 return False
-            tok = self.info[act["o"]]["tok"]
+            tok = self._tok(act["o"])
             if tok is not None:
                 env.close_channel(e, tok)
             else:
@@ -332,7 +342,7 @@ class DclLockStep:
                     self.mismatch = "step %d (%s): %s" % (self.steps, {k: (sorted(v) if hasattr(v, "__iter__") and not isinstance(v, str) else v)
                                                                         for k, v in act.items()}, d)
         return {"events": self.env.events, "pr": False, "matched": self.matched, "steps": self.steps,
-                "mismatch": self.mismatch, "ops": [], "origin": [None, None]}
+                "mismatch": self.mismatch, "ops": [], "origin": [None, None], "unjudged": self.unjudged}
 
     def close(self):
         for e in "AB":
